@@ -31,6 +31,9 @@ var vC16Routes = []string{
 	`(let [q 9003 p 9003] (f (t 9001) (t 9002)))`,                     // caller has same-named locals
 	`(defn outer [x] (f (t (+ x 9001)) (t 9002))) (outer 1)`,          // lazy arg refers to the caller's local
 	`(f (t 9001) (t 9002) (t 9003))`,                                  // extra argument (variadic or arity error)
+	`(defn mk [a] (fn [] (f (t (+ a 9001)) (t 9002)))) (def a 1000) ((mk 7))`, // caller is a closure whose creator returned; the lazy argument mentions its captured variable
+	`(defn mk [a] (let [b (* a 2)] (fn [c] (f (t (+ (+ a b) c)) (t 9002))))) (def b 5000) ((mk 3) 9001)`, // captured let variable and own parameter
+	`(defn wrap [g] (g)) (defn mk [a] (fn [] (f (t (+ a 9001)) (t 9002)))) (wrap (mk 7))`, // the closure is called from inside another function
 }
 
 func vh_C16_routes() {
@@ -50,7 +53,9 @@ func vh_C16_routes() {
 			vAssert(!p2 && err2 == nil, "late-force-succeeds")
 			if !p2 && err2 == nil {
 				i, isI := r2.(*SexpInt)
-				vAssert(isI && i.Val == h1.(*SexpInt).Val || rk == 6, "late-force-value")
+				if rk <= 5 { // routes whose first argument expression is (t h1) itself
+					vAssert(isI && i.Val == h1.(*SexpInt).Val, "late-force-value")
+				}
 			}
 		}
 	}
